@@ -124,6 +124,8 @@ var Actor ActorDef[interface{}]
 type AskDef[T any, R any] struct {
 	id time.Time
 	ch chan R
+	// timeoutCh is closed when the asker has given up waiting (AskOnceWithTimeout)
+	timeoutCh chan struct{}
 
 	Message T
 }
@@ -146,8 +148,9 @@ func AskNewGenerics[T any, R any](message T) *AskDef[T, R] {
 // AskNewByOptionsGenerics New Ask by its options
 func AskNewByOptionsGenerics[T any, R any](message T, ioCh chan R) *AskDef[T, R] {
 	newOne := AskDef[T, R]{
-		id: time.Now(),
-		ch: ioCh,
+		id:        time.Now(),
+		ch:        ioCh,
+		timeoutCh: make(chan struct{}),
 
 		Message: message,
 	}
@@ -167,11 +170,15 @@ func (askSelf *AskDef[T, R]) AskOnce(target ActorHandle[interface{}]) R {
 // AskOnceWithTimeout Sender Ask with timeout
 func (askSelf *AskDef[T, R]) AskOnceWithTimeout(target ActorHandle[interface{}], timeout time.Duration) (R, error) {
 	ch := askSelf.AskChannel(target)
-	defer close(ch)
 	var result R
 	select {
 	case result = <-ch:
+		close(ch)
 	case <-time.After(timeout):
+		// Do not close ch: the reply may still be on its way. Tell Reply() nobody is listening any more.
+		if askSelf.timeoutCh != nil {
+			close(askSelf.timeoutCh)
+		}
 		return result, ErrActorAskTimeout
 	}
 
@@ -187,7 +194,11 @@ func (askSelf *AskDef[T, R]) AskChannel(target ActorHandle[interface{}]) chan R 
 
 // Reply Receiver Reply
 func (askSelf *AskDef[T, R]) Reply(response R) {
-	askSelf.ch <- response
+	select {
+	case askSelf.ch <- response:
+	case <-askSelf.timeoutCh:
+		// The asker timed out: discard the reply
+	}
 }
 
 // Ask Ask utils instance
